@@ -342,26 +342,31 @@ func collUniverses() []universe {
 	// long strings whose sort keys share runs around 2^8 bytes: 64 letters differing in the case of an early letter
 	// (primary and secondary levels identical), or a shared prefix of 126..134 letters
 	longBase := ""
-	long := func(r *rand.Rand) string {
+	base := func(r *rand.Rand) string {
 		if longBase == "" {
 			longBase = string(randBytes(r, []byte("abcdefghijklmnopqrstuvwxyz"), 140, 140))
 		}
-		if r.Intn(2) == 0 {
-			b := []byte(longBase[:64])
-			i := r.Intn(8)
-			b[i] = b[i] - 'a' + 'A'
-			if r.Intn(3) == 0 {
-				j := r.Intn(8)
-				b[j] = b[j]&^0x20 | byte(r.Intn(2))<<5
-			}
-			return hexLit(b)
+		return longBase
+	}
+	// every key of the tree shares the run, so that ONE node carries a compressed path of 2^8 bytes and a little more
+	long64 := func(r *rand.Rand) string {
+		b := []byte(base(r)[:64])
+		i := r.Intn(6)
+		b[i] = b[i] - 'a' + 'A'
+		if r.Intn(3) == 0 {
+			j := r.Intn(8)
+			b[j] = b[j]&^0x20 | byte(r.Intn(2))<<5
 		}
-		n := 126 + r.Intn(9)
-		return hexLit(append([]byte(longBase[:n]), randBytes(r, []byte("ab"), 1, 2)...))
+		return hexLit(b)
+	}
+	long128 := func(r *rand.Rand) string {
+		n := 128 + r.Intn(5)
+		return hexLit(append([]byte(base(r)[:n]), randBytes(r, []byte("ab"), 1, 2)...))
 	}
 	return []universe{
 		{name: "coll-script", next: script, probe: probe},
-		{name: "coll-long", next: long, probe: probe},
+		{name: "coll-long64", next: long64, probe: probe},
+		{name: "coll-long128", next: long128, probe: probe},
 		{name: "coll-short", next: gen(2), probe: probe},
 		{name: "coll-mixed", next: gen(4), probe: probe},
 		{name: "coll-ascii", next: func(r *rand.Rand) string {
